@@ -436,3 +436,23 @@ def run_tasks(tasks, timeout=60, jobs=14, hashseed="0", env_extra=None, progress
         for w in workers:
             w.kill()
     return results
+
+
+def replay_programs(ctx):
+    """programs of a --replay file written by one of the core checks, or None"""
+    if not ctx.replay:
+        return None
+    import progast
+    with open(ctx.replay) as f:
+        d = json.load(f)
+    if "prog_json" not in d:
+        return None
+    goals = [progast.from_json(g) for g in d.get("goals_json", [])]
+    return [(progast.from_json(d["prog_json"]), goals, "replay")]
+
+
+def replay_data(ctx):
+    if not ctx.replay:
+        return None
+    with open(ctx.replay) as f:
+        return json.load(f)
